@@ -12,6 +12,8 @@ package persisters
 //@   at call Update#1 assert [link-path-kept-unless-sanitized] initializing || old(dbhdr.Linkname) == "" ==> hdr.Linkname == old(dbhdr.Linkname)
 //@   at call Where#1 assert [lookup-uses-stored-name] unboxStr(arg_args[0]) == hdr.Name
 //@   at call Where#2 assert [lookup-uses-stored-linkname] unboxStr(arg_args[0]) == hdr.Linkname
+//@   property C16
+//@   at call Where#1 assert [rebuilt-index-looks-rows-up-as-stored] unboxStr(arg_args[0]) == hdr.Name
 //@   property C17
 //@   at call Where#1 assert [foreign-spelling-looked-up-as-stored] unboxStr(arg_args[0]) == hdr.Name
 //@   property C01
